@@ -134,7 +134,7 @@ def judge_dumps(ctx, evs, name, arm):
         ctx.drift('%s: real dump differs from the as-built transcription: %s' % (name, evs[drifts[0]]['what'][:300]), len(drifts))
     for i in sorted(rejects):
         sig = rejects[i]
-        if sig != D4:
+        if sig not in (D4, 'dump.value_outside_its_buffer_not_displayed'):
             sig = '%s@%s' % (sig, arm)
         ctx.finding(sig, evs[i]['what'][:600] + ((' parser: ' + evs[i]['perr'][:200]) if evs[i]['perr'] else ''), evs[i])
     a = ctx.cov.setdefault('arms', {}).setdefault(name, collections.Counter())
